@@ -85,7 +85,10 @@ pub fn failure_family(ls: &LangSet, code: &str, phrase: &str) -> String {
     for e in &log {
         if let Some(k) = e.result {
             if k != crate::api::ErrK::Incomplete {
-                return format!("first-refused-word={}:{:?}", e.word, k);
+                // compounds are refused as a whole: keep the tail, where the offending morpheme usually sits
+                let cs: Vec<char> = e.word.chars().collect();
+                let tail: String = cs[cs.len().saturating_sub(10)..].iter().collect();
+                return format!("first-refused-word-tail={}:{:?}", tail, k);
             }
         }
     }
